@@ -94,7 +94,8 @@ def cached(name, main, repo_root, ttl=900):
     every python file of emu_mps/emu_base under repo_root and of the replay scripts themselves."""
     import hashlib, io, json, time, contextlib
     h = hashlib.sha256()
-    for base in (os.path.join(repo_root, "emu_mps"), os.path.join(repo_root, "emu_base"), HERE):
+    for base in (os.path.join(repo_root, "emu_mps"), os.path.join(repo_root, "emu_base"),
+                 os.path.join(repo_root, "emu_sv"), HERE):
         for dp, _, files in sorted(os.walk(base)):
             for fn in sorted(files):
                 if fn.endswith(".py"):
